@@ -845,7 +845,17 @@ def strip(e, transparent=TRANSPARENT_CALLS, _d=0):
             outs = []
             for a in als:
                 if a[0] == "call" and a[1] == "std::ops::Try::branch" and a[2]:
-                    outs.append(("try", a[2][0]))
+                    # `x?` where x is built as Ok(p)/Some(p) | Err(..)/None: the value is p
+                    xs = a[2][0]
+                    xal = xs[1] if xs[0] == "phi" else (xs,)
+                    if all(y[0] == "agg" and y[2] in ("Ok", "Some", "Err", "None") for y in xal):
+                        for y in xal:
+                            if y[2] in ("Ok", "Some") and y[3]:
+                                outs.append(y[3][0][1])
+                        if not any(y[2] in ("Ok", "Some") for y in xal):
+                            outs.append(("unknown", "variant-mismatch"))
+                    else:
+                        outs.append(("try", xs))
                 else:
                     outs.append(("field", e[1], e[2], e[3], a))
             return mkphi(tuple(outs))
